@@ -21,7 +21,7 @@ Record pinv (U : list entry) (l : log) : Prop := {
 Lemma linv_pinv U l : linv U l -> pinv U l.
 Proof. intros I. destruct I. split; auto. Qed.
 
-Lemma pinv_new U id key s deny : pinv U (new_log id key s deny).
+Lemma pinv_new U id key s deny t0 : pinv U (new_log id key s deny t0).
 Proof. apply linv_pinv, linv_new. Qed.
 
 Lemma pinv_mono_U U e l : pinv U l -> pinv (U ++ [e]) l.
